@@ -126,8 +126,8 @@ TasmanianSparseGrid make_initial(Scen &s){
         if (g.getNumPoints() >= s.jobs * s.batch) break;
     }
     if (s.preloaded){
-        // level 7 in two dimensions: 1537 points, all loaded by the user before the call; the budget leaves 8..16 samples to construct
-        g = makeLocalPolynomialGrid(2, 1, 7, 1, rule_localp); s.depth = 7;
+        // level 8 in two dimensions: 1537 points, all loaded by the user before the call; the budget leaves 8..16 samples to construct
+        g = makeLocalPolynomialGrid(2, 1, 8, 1, rule_localp); s.depth = 8;
         std::vector<double> p = g.getNeededPoints();
         g.loadNeededValues(tagged_values(p, 2, 1, 0));
         s.budget = g.getNumLoaded() + 8 + (s.budget % 9);
